@@ -103,6 +103,7 @@ pub struct Stats {
 	pub threads_ended: u64,
 	pub inconclusive: u64,
 	pub callbacks: u64,
+	pub late_error_notice_max: u64,
 }
 
 fn known_scene(s: Scene) -> Option<&'static str> {
@@ -350,7 +351,24 @@ pub fn run_case(c: &CaseSpec, stats: &mut Stats, relax_starved_skip: bool) -> Re
 			}
 			if c.scene != Scene::PausedTrack && !mgr_dropped && c.scene != Scene::TrackDropped {
 				if stopped_at.is_none() {
-					return Err("decode/seek error occurred but the sound never became Stopped".into());
+					// the error may have occurred after the last callback of the loop (the dec.error hook fires just before the
+					// decoder thread publishes the error): the property allows the next callbacks to notice it
+					let mut extra = 0;
+					while h.state() != PlaybackState::Stopped && extra < 200 {
+						std::thread::sleep(std::time::Duration::from_millis(1));
+						rig.callback(c.chunk);
+						extra += 1;
+					}
+					let extra = extra as u64;
+					if h.state() != PlaybackState::Stopped {
+						return Err("decode/seek error occurred but the sound never became Stopped".into());
+					}
+					if extra > 3 {
+						stats.late_error_notice_max = stats.late_error_notice_max.max(extra);
+					}
+					if let Some(e) = h.pop_error() {
+						popped.push(e);
+					}
 				}
 				let want = match c.fault {
 					Fault::Decode(k) | Fault::DecodeFrom(k) => format!("injected decode error at call {}", k),
@@ -475,7 +493,7 @@ fn gen_case(r: &mut Rng, exhaustive_k: Option<(Fault, Scene)>) -> CaseSpec {
 }
 
 pub fn run(ctx: &mut Ctx) {
-	let mut stats = Stats { starved_skips: 0, faults_reached: 0, threads_ended: 0, inconclusive: 0, callbacks: 0 };
+	let mut stats = Stats { starved_skips: 0, faults_reached: 0, threads_ended: 0, inconclusive: 0, callbacks: 0, late_error_notice_max: 0 };
 	let mut run_one = |ctx: &mut Ctx, stream: &str, idx: u64, c: CaseSpec, stats: &mut Stats| {
 		if let Some(k) = known_scene(c.scene) {
 			if ctx.known(k) {
@@ -563,13 +581,14 @@ pub fn run(ctx: &mut Ctx) {
 	ctx.count("decoder_threads_observed_ending", stats.threads_ended);
 	ctx.count("callbacks", stats.callbacks);
 	ctx.count("starved_resume_skips_tolerated_as_known_finding", stats.starved_skips);
+	ctx.maxf("callbacks_until_a_late_error_was_noticed_max", stats.late_error_notice_max as f64);
 	ctx.inconclusive += stats.inconclusive;
 	let _ = J::Null;
 }
 
 fn confirm_scene(scene: Scene, fault: Fault) -> Option<String> {
 	let c = CaseSpec { scene, fault, len: 40000, packet: 512, lp: None, slow_us: 0, stalled: false, chunk: 64, event_after: 2, heavy_main: 0 };
-	let mut stats = Stats { starved_skips: 0, faults_reached: 0, threads_ended: 0, inconclusive: 0, callbacks: 0 };
+	let mut stats = Stats { starved_skips: 0, faults_reached: 0, threads_ended: 0, inconclusive: 0, callbacks: 0, late_error_notice_max: 0 };
 	match super::guarded(|| run_case(&c, &mut stats, false)) {
 		Ok(Ok(())) => None,
 		Ok(Err(e)) => Some(e),
@@ -589,7 +608,7 @@ pub fn confirm(key: &str) -> Option<Option<String>> {
 				// a slow decoder (one frame per ~60 us) and callbacks long enough (reverbs on the main track,
 				// fully dry so the coded frames are unchanged) that frames arrive while a starved chunk is rendered
 				let c = CaseSpec { scene: Scene::Main, fault: Fault::None, len: 3000, packet: 1, lp: None, slow_us: 20, stalled: false, chunk: 1024, event_after: 1000, heavy_main: 6 + (attempt as usize % 3) };
-				let mut stats = Stats { starved_skips: 0, faults_reached: 0, threads_ended: 0, inconclusive: 0, callbacks: 0 };
+				let mut stats = Stats { starved_skips: 0, faults_reached: 0, threads_ended: 0, inconclusive: 0, callbacks: 0, late_error_notice_max: 0 };
 				let r = super::guarded(|| run_case(&c, &mut stats, false));
 				crate::hooks::release_all();
 				if let Ok(Err(e)) = r {
